@@ -15,6 +15,7 @@ from .. import matchpipe, objdump, parsepipe, render, tlc
 from ..common import Report, MachineryError, load_known_findings, seed, scratch
 from ..pat import seq, ins, lit, group
 
+SECTIONS_RULE = "config:\n  sections:\n  - .text\npattern:\n- nop\n"
 RULES = [seq(ins("call")), seq(ins("push"), ins("call")), seq(ins("mov", lit("rip"))), seq(group("not", ins("ret")), ins("ret"))]
 
 
@@ -56,8 +57,12 @@ def run(prop, tier):
     texts = ["\n".join(s["text"]) + "\n" for s in states]
     obs = parsepipe.parse_texts(texts, "c16")
     cases = [parsepipe.case("abs", s["text"], s["listing"], o) for s, o in zip(states, obs)]
+    # the same under a rule that names sections: for a listing the `sections' option selects nothing (it is an
+    # option of the disassembler run, C15), so section header lines stay presentation
+    obs_s = parsepipe.parse_texts(texts, "c16s", rule=SECTIONS_RULE)
+    cases += [parsepipe.case("abs", s["text"], s["listing"], o) for s, o in zip(states, obs_s)]
     verdicts = parsepipe.validate(cases, report, "c16a")
-    for c, v, s in zip(cases, verdicts, states):
+    for c, v, s in zip(cases, verdicts, states + states):
         if v.startswith("rej"):
             if v[4:].startswith("MACHINERY"):
                 raise MachineryError(f"C16: {v}")
@@ -104,7 +109,7 @@ def run(prop, tier):
     report.cov["evaluations"] = len(cases) + len(mcases) + len(pcases)
     report.cov["traces_validated_against_impl"] = len(cases) + len(mcases) + len(pcases)
     report.cov["distinct_nontrivial"] = sum(1 for s in states if s["nedits"] >= 1) + len(pcases) - skipped
-    report.cov["parts"] = [{"part": "edit states (TLC)", "states": len(states), "rejected": sum(v.startswith("rej") for v in verdicts)},
+    report.cov["parts"] = [{"part": "edit states (TLC), each under a plain rule and under a rule with `sections`", "states": len(states), "rejected": sum(v.startswith("rej") for v in verdicts)},
                            {"part": "rule results on edit states", "cases": len(mcases), "rejected": sum(v.startswith("rej") for v in mverd)},
                            {"part": "real objdump variants", "pairs": len(pcases), "not_comparable": skipped,
                             "rejected": sum(v.startswith("rej") for v in pverd)}]
